@@ -48,7 +48,8 @@ def configs(tier, seed):
                          subtree_update_prob=sp, alpha=alphas[k % 3], data_seed=seed * 1000 + k % 11))
         k += 1
     if tier == "quick":
-        n3 = [(PROPOSALS[(seed + 2) % 3], 0.0, ["library", "run"][seed % 2])]
+        n3 = [(PROPOSALS[(seed + 2) % 3], 0.0, ["library", "run"][seed % 2]),
+              (PROPOSALS[(seed + 1) % 3], 0.2, ["run", "library"][seed % 2])]
     else:
         n3 = list(itertools.product(PROPOSALS, [0.0, 0.2], ["library", "run"]))
     for prop, op, wiring in n3:
